@@ -22,13 +22,14 @@ Definition same_set {A} (eqb : A -> A -> bool) (l1 l2 : list A) : bool := incl_b
 Definition check_case (c : case) : list N :=
   match c with
   | Case ext out tree bf bd af ad failed =>
-      let r := run (render ext out tree) {| files := bf; dirs := bd |} in
+      let r := run (cli_events ext out tree) {| files := bf; dirs := bd |} in
       flag (ext_wf ext) 2
       ++ flag (ancestors_exist out {| files := bf; dirs := bd |}) 3
       ++ flag (fs_pre ext out tree {| files := bf; dirs := bd |} && negb (is_nil out)) 3
       ++ flag (same_set entry_eqb (files (fst r)) af && same_set path_eqb (dirs (fst r)) ad
                && Bool.eqb (snd r) (negb failed)) 1
       ++ flag (no_creation_outside ext out bf af bd ad) 10
-      ++ flag (one_file_per_board ext out tree af failed) 11
+      ++ flag (if refused tree then refused_cleanly bf af bd ad failed
+               else one_file_per_board ext out tree af failed) 11
       ++ flag (no_deletion_outside ext out bf af bd ad) 12
   end.
